@@ -9,6 +9,11 @@
 // optionally the first 1-3 connection attempts are refused, reconnects after the fault are refused or served, and a user
 // action runs inside one completion callback (cancel the next request, make a new request, evhttp_connection_free,
 // loopbreak + free connection and base).  Afterwards the peer closes everything and 10 x 30 virtual seconds pass.
+// Position domain (per case): the byte offsets above, or EVERY EVENT-LOOP STEP of the exchange (step j = j-th poll of the loop since
+// the first evhttp_make_request).  Steps also cover what no response byte covers: the connect in flight (first attempt, attempt
+// started by the retry timer, reconnect for the next queued request), refused attempts, pending retry timers, the time after the
+// exchange.  A prepare watcher counts the polls and, at step j, activates a user event; the fault (user call or harness-side network
+// action) runs from that event's callback, i.e. where a user timer that happens to fire at that moment would run.
 // Oracle: completion callback exactly once per request (0 iff cancelled, or still queued when the user freed the connection),
 // error callback at most once and before the completion callback, a success carries the body of *its* request, without
 // fault/cancel/free every request succeeds; allocation ledger back to baseline, fd table balanced, ASan clean.
@@ -23,6 +28,7 @@
 #include "http_common.hh"
 #include <algorithm>
 #include <signal.h>
+#include <event2/watch.h>
 
 namespace {
 using hc::ReqRec;
@@ -40,6 +46,11 @@ struct Plan {
   int nreq = 1; bool post[3] = {false, false, false}; int retries = 0; int refuse_first = 0; bool refuse_after_fault = false;
   int resp_kind = 0;        // 0 Content-Length keep-alive, 1 chunked, 2 Connection: close + Content-Length, 3 close-delimited
   int fault = F_NONE; int fault_conn = 0; int act = A_NONE; int act_req = 0; int backend = 0; bool own = false;
+  // position domain of the fault: false = byte offset k of the response stream of connection fault_conn (the fault fires between two
+  // harness writes); true = event-loop step j of the whole exchange, counted from the first evhttp_make_request over connecting,
+  // refused attempts, retry waits, the exchange itself and the 300 s afterwards: the fault runs from a user event's callback
+  // that becomes active right before the j-th poll of the loop (i.e. as the first callback of step j)
+  bool at_step = false;
 };
 
 struct RunA {
@@ -51,6 +62,9 @@ struct RunA {
   size_t sent_on_fault_conn = 0;
   bool fault_fired = false, stalled = false, teardown = false, listening = false;
   bool act_done = false, exhausted = false;
+  // event-loop steps: a prepare watcher counts the polls of the loop; at step fault_at it activates the user's event
+  struct evwatch *prep = nullptr; struct event *user_ev = nullptr; long steps = 0;
+  bool fired_outstanding = false, fired_connecting = false, fired_retry_pending = false, fired_retried_connecting = false;
   std::vector<bool> after_exh;      // per request: made after the retries had been used up
   std::vector<struct evhttp_request *> owned;   // requests taken over with evhttp_request_own(); freed by the harness outside the callback
   void free_owned() { for (auto *q : owned) evhttp_request_free(q); owned.clear(); }
@@ -75,6 +89,12 @@ struct RunA {
       default: break;
     }
   }
+  static void prep_cb(struct evwatch *, const struct evwatch_prepare_cb_info *, void *arg) {
+    RunA *me = (RunA *)arg; long j = me->steps++;
+    if (me->p.at_step && me->p.fault != F_NONE && !me->fault_fired && !me->teardown && j == me->fault_at) event_active(me->user_ev, EV_TIMEOUT, 1);
+  }
+  static void user_cb(evutil_socket_t, short, void *arg) { RunA *me = (RunA *)arg; if (!me->fault_fired && !me->teardown) me->fire_fault(true); }
+  void drop_hooks() { if (user_ev) { event_free(user_ev); user_ev = nullptr; } if (prep) { evwatch_free(prep); prep = nullptr; } }
   void cancel(ReqRec *r, const char *where) {
     if (!r->req || r->cb_calls || r->cancelled || r->abandoned) return;   // documented: not after its callback ran
     TR("    %s: evhttp_cancel_request(#%d)", where, r->idx);
@@ -134,21 +154,30 @@ struct RunA {
   }
   void unlisten() { if (listening) { w.stop_listening(); listening = false; } }
 
-  void fire_fault() {
+  // in_loop: called from the callback of the user's event inside event_base_loop (the harness must not re-enter the loop there)
+  void fire_fault(bool in_loop = false) {
     fault_fired = true;
-    TR("    fault %s at byte %ld of connection %d", FN[p.fault], fault_at, conn_no);
+    if (in_loop) {
+      TR("    fault %s at loop step %ld (connection %d)", FN[p.fault], fault_at, conn_no);
+      // what the library was doing when the fault struck (generator-distribution counters only, nothing is decided from them)
+      for (ReqRec *r : w.recs) if (r->req && !r->cb_calls && !r->cancelled && !r->abandoned) fired_outstanding = true;
+      if (w.evcon && fired_outstanding) {
+        if (w.evcon->state == EVCON_CONNECTING) { fired_connecting = true; if (w.evcon->retry_cnt) fired_retried_connecting = true; }
+        else if (w.evcon->state == EVCON_DISCONNECTED && w.evcon->retry_cnt) fired_retry_pending = true;
+      }
+    } else TR("    fault %s at byte %ld of connection %d", FN[p.fault], fault_at, conn_no);
     switch (p.fault) {
-      case F_EOF: if (p.refuse_after_fault) unlisten(); w.close_server(); break;
+      case F_EOF: if (p.refuse_after_fault) unlisten(); w.close_server(!in_loop); break;
       case F_RST: {
         if (p.refuse_after_fault) unlisten();
         int cfd = w.evcon ? (int)bufferevent_getfd(evhttp_connection_get_bufferevent(w.evcon)) : -1;
-        if (cfd >= 0) { sim_script(SYS_READV, cfd, ACT_FAIL, ECONNRESET); }
-        w.close_server(); sim_script_clear(); break; }
+        if (cfd >= 0 && (!in_loop || w.sfd >= 0)) { sim_script(SYS_READV, cfd, ACT_FAIL, ECONNRESET); }
+        w.close_server(!in_loop); if (!in_loop) sim_script_clear(); break; }
       case F_STALL: stalled = true; if (p.refuse_after_fault) unlisten(); break;
-      case F_CANCEL_ACTIVE: for (ReqRec *r : w.recs) if (r->req && !r->cb_calls && !r->cancelled) { cancel(r, "step"); break; } w.pump(); break;
-      case F_CANCEL_QUEUED: { int seen = 0; for (ReqRec *r : w.recs) if (r->req && !r->cb_calls && !r->cancelled) { if (seen++ == 1) { cancel(r, "step"); break; } } w.pump(); break; }
-      case F_FREE_CONN: free_conn("step"); w.pump(); break;
-      case F_TEARDOWN: teardown = true; break;
+      case F_CANCEL_ACTIVE: for (ReqRec *r : w.recs) if (r->req && !r->cb_calls && !r->cancelled) { cancel(r, "step"); break; } if (!in_loop) w.pump(); break;
+      case F_CANCEL_QUEUED: { int seen = 0; for (ReqRec *r : w.recs) if (r->req && !r->cb_calls && !r->cancelled) { if (seen++ == 1) { cancel(r, "step"); break; } } if (!in_loop) w.pump(); break; }
+      case F_FREE_CONN: free_conn("step"); if (!in_loop) w.pump(); break;
+      case F_TEARDOWN: teardown = true; if (in_loop) { w.stop = true; event_base_loopbreak(w.base); } break;
       default: break;
     }
   }
@@ -162,7 +191,7 @@ struct RunA {
       if (!listening && p.refuse_first >= 0 && (int)sim_sys_calls[SYS_CONNECT] >= p.refuse_first && !(fault_fired && p.refuse_after_fault)) { listen_now(); }
       if (listening && w.accept_one()) { conn_no++; answered = 0; sent_on_conn = 0; cur_off = 0; stalled = false; progress = true; TR("    accepted connection %d", conn_no); w.pump(); if (teardown) break; }
       if (w.sfd >= 0 && !stalled) {
-        bool faulty = p.fault != F_NONE && !fault_fired && conn_no == p.fault_conn && fault_at >= 0;
+        bool faulty = p.fault != F_NONE && !p.at_step && !fault_fired && conn_no == p.fault_conn && fault_at >= 0;
         int no = next_request();
         if (no >= 0) {
           std::string resp = response_for(no); size_t n = resp.size() - cur_off; bool fire = false;
@@ -192,6 +221,8 @@ struct RunA {
     sim_script_clear();
     for (int i = 0; i < SYS__N; i++) sim_sys_calls[i] = 0;
     CHECK(w.open_base(), "harness/base", "event_base_new failed");
+    prep = evwatch_prepare_new(w.base, prep_cb, this); user_ev = event_new(w.base, -1, 0, user_cb, this);
+    CHECK(prep != nullptr && user_ev != nullptr, "harness/step-hooks", "evwatch_prepare_new / event_new failed");
     w.open_listener(); listening = true;
     if (p.refuse_first > 0) unlisten();
     evhttp_connection_set_retries(w.evcon, p.retries);
@@ -211,7 +242,8 @@ struct RunA {
 // true with probability num/den, false when the input bytes are exhausted
 bool rare(Src &s, uint32_t num, uint32_t den) { return s.below(den) >= den - num; }
 
-struct OutA { std::vector<ReqRec> recs; std::vector<bool> after_exh; size_t sent_on_fault_conn = 0; bool fault_fired = false; int connects = 0; };
+struct OutA { std::vector<ReqRec> recs; std::vector<bool> after_exh; size_t sent_on_fault_conn = 0; bool fault_fired = false; int connects = 0;
+  long steps = 0; bool fired_outstanding = false, fired_connecting = false, fired_retry_pending = false, fired_retried_connecting = false; };
 
 OutA run_a(const Plan &p, long k) {
   OutA out;
@@ -221,7 +253,10 @@ OutA run_a(const Plan &p, long k) {
     for (ReqRec *q : r.w.recs) out.recs.push_back(*q);
     out.after_exh = r.after_exh;
     out.sent_on_fault_conn = r.sent_on_fault_conn; out.fault_fired = r.fault_fired; out.connects = (int)sim_sys_calls[SYS_CONNECT];
+    out.steps = r.steps; out.fired_outstanding = r.fired_outstanding; out.fired_connecting = r.fired_connecting;
+    out.fired_retry_pending = r.fired_retry_pending; out.fired_retried_connecting = r.fired_retried_connecting;
     bool torn = r.teardown;
+    r.drop_hooks();      // the user's event and watcher go before the connection and the base
     r.w.close_world();   // marks still-queued requests as abandoned, frees the connection, then the base
     for (size_t i = 0; i < out.recs.size(); i++) { out.recs[i].abandoned = out.recs[i].abandoned || (out.recs[i].cb_calls == 0 && !out.recs[i].cancelled && torn); }
     r.w.check_no_leak("C27/leak", "C27/fd-leak");
@@ -236,8 +271,8 @@ void check_a(const Plan &p, long k, const OutA &o, bool faultless) {
     if (r.cancelled) CHECK(r.cb_calls == 0, "C27/callback-after-cancel", "fault %s at %ld: request %d was cancelled before its callback ran, yet the completion callback ran %d time(s)%s", FN[p.fault], k, r.idx, r.cb_calls, show_a(o).c_str());
     else if (r.abandoned) CHECK(r.cb_calls <= 1, "C27/completed-twice", "fault %s at %ld: request %d completion callback ran %d times%s", FN[p.fault], k, r.idx, r.cb_calls, show_a(o).c_str());
     else {
-      CHECK(r.cb_calls >= 1, (size_t)r.idx < o.after_exh.size() && o.after_exh[(size_t)r.idx] ? K_STUCK : "C27/never-completed", "fault %s at byte %ld of connection %d (cb-action %s@%d, retries %d, refuse_first %d): request %d never had its completion callback run although the peer went away and 300 s passed%s", FN[p.fault], k, p.fault_conn, AN[p.act], p.act_req, p.retries, p.refuse_first, r.idx, show_a(o).c_str());
-      CHECK(r.cb_calls == 1, "C27/completed-twice", "fault %s at byte %ld of connection %d (cb-action %s@%d): request %d completion callback ran %d times%s", FN[p.fault], k, p.fault_conn, AN[p.act], p.act_req, r.idx, r.cb_calls, show_a(o).c_str());
+      CHECK(r.cb_calls >= 1, (size_t)r.idx < o.after_exh.size() && o.after_exh[(size_t)r.idx] ? K_STUCK : "C27/never-completed", "fault %s at %s %ld of connection %d (cb-action %s@%d, retries %d, refuse_first %d): request %d never had its completion callback run although the peer went away and 300 s passed%s", FN[p.fault], p.at_step ? "loop step" : "byte", k, p.fault_conn, AN[p.act], p.act_req, p.retries, p.refuse_first, r.idx, show_a(o).c_str());
+      CHECK(r.cb_calls == 1, "C27/completed-twice", "fault %s at %s %ld of connection %d (cb-action %s@%d): request %d completion callback ran %d times%s", FN[p.fault], p.at_step ? "loop step" : "byte", k, p.fault_conn, AN[p.act], p.act_req, r.idx, r.cb_calls, show_a(o).c_str());
     }
     CHECK(r.err_calls <= 1, "C27/error-callback-twice", "fault %s at %ld: request %d error callback ran %d times%s", FN[p.fault], k, r.idx, r.err_calls, show_a(o).c_str());
     if (r.err_calls && r.cb_calls) CHECK(r.err_before_cb, "C27/error-callback-after-completion", "request %d: error callback ran after the completion callback (documented: before)", r.idx);
@@ -259,29 +294,35 @@ int leg_a(Src &s) {
   p.act = rare(s, 1, 2) ? A_NONE : (int)s.below(A__N); p.act_req = s.below((uint32_t)p.nreq);
   p.own = rare(s, 1, 6);
   { uint32_t b = s.below(8); p.backend = b < 6 ? 0 : (int)b - 5; }
-  TR("plan: nreq=%d retries=%d resp_kind=%d refuse_first=%d fault=%s on conn %d refuse_after=%d cb-action=%s@%d own=%d backend=%d", p.nreq, p.retries, p.resp_kind, p.refuse_first, FN[p.fault], p.fault_conn, p.refuse_after_fault, AN[p.act], p.act_req, p.own, p.backend);
-  // 1. the same exchange without the fault (measures how many bytes the faulted connection carries)
+  p.at_step = rare(s, 2, 5);     // drawn last: inputs that end before this draw keep their meaning (byte offsets)
+  TR("plan: nreq=%d retries=%d resp_kind=%d refuse_first=%d fault=%s on conn %d refuse_after=%d cb-action=%s@%d own=%d backend=%d position=%s", p.nreq, p.retries, p.resp_kind, p.refuse_first, FN[p.fault], p.fault_conn, p.refuse_after_fault, AN[p.act], p.act_req, p.own, p.backend, p.at_step ? "loop-step" : "byte");
+  // 1. the same exchange without the fault (measures how many bytes the faulted connection carries / how many loop steps the exchange takes)
   Plan base = p; base.fault = F_NONE;
   TR("run without fault");
   OutA o0 = run_a(base, -1);
   TR("  result:%s", show_a(o0).c_str());
   bool faultless = base.act == A_NONE && base.refuse_first <= base.retries;
   check_a(base, -1, o0, faultless && base.refuse_first == 0);
-  size_t L = o0.sent_on_fault_conn;
-  // 2. the fault at every byte offset 0..L
-  int inside = 0, failures = 0; uint64_t runs = 1;
+  size_t L = p.at_step ? (size_t)(o0.steps > 0 ? o0.steps - 1 : 0) : o0.sent_on_fault_conn;
+  // 2. the fault at every byte offset 0..L / at every loop step 0..L
+  int inside = 0, failures = 0, outstanding = 0, connecting = 0, retry_pending = 0, retried_connecting = 0; uint64_t runs = 1;
   for (long k = 0; k <= (long)L; k++) {
-    TR("run with fault %s at byte %ld/%zu of connection %d", FN[p.fault], k, L, p.fault_conn);
+    TR("run with fault %s at %s %ld/%zu of connection %d", FN[p.fault], p.at_step ? "loop step" : "byte", k, L, p.fault_conn);
     OutA o = run_a(p, k); runs++;
     TR("  result:%s", show_a(o).c_str());
     check_a(p, k, o, false);
     if (o.fault_fired && k > 0 && k < (long)L) inside++;
     for (auto &r : o.recs) if (r.cb_calls && !r.success) { failures++; break; }
+    outstanding += o.fired_outstanding; connecting += o.fired_connecting; retry_pending += o.fired_retry_pending; retried_connecting += o.fired_retried_connecting;
   }
   verif_class(("fault:" + std::string(FN[p.fault])).c_str()); verif_class(("cb-action:" + std::string(AN[p.act])).c_str());
   if (p.refuse_first) verif_class("refused-connects"); if (p.retries) verif_class("retries>0"); if (p.fault_conn) verif_class("fault-on-reconnect");
   if (p.nreq > 1) verif_class("pipelined"); if (failures) verif_class("failure-reported");
+  if (p.at_step) { verif_class("position:loop-step"); if (connecting) verif_class("step-fault-while-connecting"); if (retry_pending) verif_class("step-fault-while-retry-pending"); if (retried_connecting) verif_class("step-fault-while-retried-connect-in-flight"); }
   verif_class_n("faulted_runs", runs);
+  // loop-step position: the fault struck at least once while a request was outstanding, and the exchange involved a connect in flight
+  // or a pending retry at that moment, or a failure was reported
+  if (p.at_step) return outstanding >= 1 && (connecting >= 1 || retry_pending >= 1 || failures >= 1);
   return inside >= 1 && failures >= 1;
 }
 
